@@ -1008,3 +1008,179 @@ Proof.
   - rewrite rev'_rev. cbn [rev]. rewrite j_emits_calls. cbn [j_calls]. rewrite app_nil_r, rev_involutive. reflexivity.
   - exists k. rewrite rev'_rev, j_emits_calls. cbn [j_calls]. rewrite app_nil_r, rev_involutive. reflexivity.
 Qed.
+
+(* ================================================================== the two front ends agree *)
+Definition xj_no_enc0 (l : list cfg_call) : Prop := forallb (fun c => negb (is_enc0 c)) l = true.
+
+Lemma xj_no_enc0_strip : forall l, xj_no_enc0 l -> strip_enc0 l = l.
+Proof. intros l H. unfold strip_enc0. apply pg_filter_id. exact H. Qed.
+Lemma xj_no_enc0_app : forall a b, xj_no_enc0 a -> xj_no_enc0 b -> xj_no_enc0 (a ++ b).
+Proof. intros a b Ha Hb. unfold xj_no_enc0 in *. rewrite forallb_app, Ha, Hb. reflexivity. Qed.
+Lemma xj_no_enc0_cons : forall c l, is_enc0 c = false -> xj_no_enc0 l -> xj_no_enc0 (c :: l).
+Proof. intros c l Hc Hl. unfold xj_no_enc0 in *. cbn [forallb]. rewrite Hc, Hl. reflexivity. Qed.
+
+Lemma xj_file_not_enc0 : forall obj f, is_enc0 (CCall obj B"file" [f]) = false.
+Proof. intros obj f. cbn. rewrite andb_false_r. reflexivity. Qed.
+
+Lemma xj_no_enc0_words : forall obj ws, xj_no_enc0 (fst (xj_words_denote obj ws)).
+Proof.
+  intros obj. induction ws as [|w ws IH]; [reflexivity|]. cbn [xj_words_denote].
+  destruct (xj_word_denote obj w) as [c|] eqn:Hc; [|reflexivity].
+  destruct (xj_words_denote obj ws) as [cs ok]. cbn [fst] in *.
+  apply xj_no_enc0_cons; [|exact IH].
+  destruct w as [e v|f]; cbn [xj_word_denote] in Hc.
+  - exact (opt_denote_not_enc0 e v c Hc).
+  - inversion Hc; subst. apply xj_file_not_enc0.
+Qed.
+
+Lemma xj_no_enc0_block : forall beginc body endc, is_enc0 beginc = false -> is_enc0 endc = false -> xj_no_enc0 (fst body) ->
+  xj_no_enc0 (fst (xj_block beginc body endc)).
+Proof.
+  intros beginc [cs ok] endc Hb He Hc. unfold xj_block. cbn [fst snd] in *.
+  apply xj_no_enc0_cons; [exact Hb|]. apply xj_no_enc0_app; [exact Hc|]. destruct ok; [|reflexivity].
+  apply xj_no_enc0_cons; [exact He|reflexivity].
+Qed.
+
+Lemma xj_no_enc0_seq : forall (A : Type) (f : A -> list cfg_call * bool) l, (forall x, xj_no_enc0 (fst (f x))) -> xj_no_enc0 (fst (xj_seq f l)).
+Proof.
+  intros A f l H. induction l as [|x l IH]; [reflexivity|]. cbn [xj_seq]. pose proof (H x) as Hx.
+  destruct (f x) as [cs ok]. cbn [fst] in *. destruct ok; [|exact Hx].
+  destruct (xj_seq f l) as [cs2 ok2]. cbn [fst] in *. apply xj_no_enc0_app; assumption.
+Qed.
+
+Lemma xj_strip_item : forall files named it, xj_wf_item argv_table files named it ->
+  strip_enc0 (xj_argv_calls_item it) = fst (xj_denote_item it).
+Proof.
+  intros files named it Hwf. destruct it as [b|l|l|l|l|l|l]; cbn [xj_wf_item xj_argv_calls_item xj_denote_item] in *.
+  - exact (strip_item b Hwf).
+  - cbn [fst]. apply pg_strip_denote.
+  - apply xj_no_enc0_strip. apply xj_no_enc0_seq. intros u. unfold xj_uo_denote.
+    apply xj_no_enc0_block; [reflexivity|reflexivity|apply xj_no_enc0_words].
+  - apply xj_no_enc0_strip. apply xj_no_enc0_seq. intros u. unfold xj_uo_denote.
+    apply xj_no_enc0_block; [reflexivity|reflexivity|apply xj_no_enc0_words].
+  - apply xj_no_enc0_strip. apply xj_no_enc0_seq. intros ws. unfold xj_att_denote.
+    apply xj_no_enc0_block; [reflexivity|reflexivity|apply xj_no_enc0_words].
+  - apply xj_no_enc0_strip. apply xj_no_enc0_seq. intros ws. unfold xj_copyatt_denote.
+    apply xj_no_enc0_block; [reflexivity|reflexivity|apply xj_no_enc0_words].
+  - reflexivity.
+Qed.
+
+Lemma xj_strip_argv_calls : forall files named j, Forall (xj_wf_item argv_table files named) j ->
+  strip_enc0 (xj_argv_calls j) = fst (xj_denote_items j).
+Proof.
+  intros files named. induction j as [|it j IH]; intros Hwf; [reflexivity|].
+  pose proof (Forall_inv Hwf) as Hit. pose proof (Forall_inv_tail Hwf) as Hj.
+  unfold xj_denote_items. cbn [xj_argv_calls xj_seq]. fold (xj_denote_items j). pose proof (xj_strip_item files named it Hit) as Hs.
+  destruct (xj_denote_item it) as [cs ok]. cbn [fst snd] in *. destruct ok.
+  - rewrite strip_app, Hs, (IH Hj). destruct (xj_denote_items j). reflexivity.
+  - exact Hs.
+Qed.
+
+(* nested_equivalent (DESIGN §5 C19), over every option table: command line (either spelling of file names) and job JSON make the
+   same Config calls (the command line's preliminary encrypt(0, "", "") apart), and one is rejected as a usage error iff the other is *)
+Lemma nested_equivalent_lemma : forall files named j, xj_wf_job argv_table files named j ->
+  strip_enc0 (r_calls (front_argv files (xj_render_argv named j))) = r_calls (front_json false (xj_render_json j)) /\
+  ((r_end (front_argv files (xj_render_argv named j)) = EFin /\ r_end (front_json false (xj_render_json j)) = EFin) \/
+   (exists k1 k2, r_end (front_argv files (xj_render_argv named j)) = EFront k1 /\ r_end (front_json false (xj_render_json j)) = EFront k2)).
+Proof.
+  intros files named j Hwf. pose proof (argv_refines_spec_lemma files named j Hwf) as HA.
+  destruct Hwf as [Hwf _]. pose proof (json_refines_spec_lemma files named j Hwf) as HJ.
+  pose proof (xj_strip_argv_calls files named j Hwf) as HS.
+  unfold res_is in *. destruct (snd (xj_denote_items j)).
+  - rewrite HA, HJ. cbn [r_calls r_end app]. split; [|left; split; reflexivity].
+    rewrite strip_app, HS. reflexivity.
+  - destruct HA as [k1 HA]. destruct HJ as [k2 HJ]. rewrite HA, HJ. cbn [r_calls r_end app]. split; [exact HS|].
+    right. exists k1, k2. split; reflexivity.
+Qed.
+
+(* usage_errors_agree, over every option table *)
+Lemma usage_errors_agree_lemma : forall files named j, xj_wf_job argv_table files named j ->
+  is_front_usage (front_argv files (xj_render_argv named j)) <-> is_front_usage (front_json false (xj_render_json j)).
+Proof.
+  intros files named j Hwf. destruct (nested_equivalent_lemma files named j Hwf) as [_ [[H1 H2]|[k1 [k2 [H1 H2]]]]]; unfold is_front_usage.
+  - rewrite H1, H2. split; intros [k Hk]; discriminate.
+  - rewrite H1, H2. split; intros _; eauto.
+Qed.
+
+(* ================================================================== argv + --job-json-file (partial job JSON) *)
+Lemma xj_denote_items_app : forall a b, snd (xj_denote_items a) = true ->
+  xj_denote_items (a ++ b) = (fst (xj_denote_items a) ++ fst (xj_denote_items b), snd (xj_denote_items b)).
+Proof.
+  unfold xj_denote_items. induction a as [|it a IH]; intros b H.
+  - cbn. destruct (xj_seq xj_denote_item b). reflexivity.
+  - cbn [app xj_seq] in *. destruct (xj_denote_item it) as [cs ok]. destruct ok; [|discriminate].
+    destruct (xj_seq xj_denote_item a) as [cs2 ok2] eqn:Ha. cbn [fst snd] in *. rewrite (IH b H).
+    cbn [fst snd]. rewrite app_assoc. reflexivity.
+Qed.
+
+Lemma xj_argv_calls_app : forall a b, snd (xj_denote_items a) = true -> xj_argv_calls (a ++ b) = xj_argv_calls a ++ xj_argv_calls b.
+Proof.
+  unfold xj_denote_items. induction a as [|it a IH]; intros b H; [reflexivity|].
+  cbn [app xj_argv_calls xj_seq] in *. destruct (xj_denote_item it) as [cs ok]. cbn [snd]. destruct ok; [|discriminate].
+  destruct (xj_seq xj_denote_item a) as [cs2 ok2] eqn:Ha. cbn [fst snd] in *. rewrite (IH b H). rewrite app_assoc. reflexivity.
+Qed.
+
+Lemma xj_json_partial_refines : forall files named j, Forall (xj_wf_item argv_table files named) j -> snd (xj_denote_items j) = true ->
+  front_json true (xj_render_json j) = mk_fe_res (fst (xj_denote_items j)) EFin.
+Proof.
+  intros files named j Hwf Hok. unfold front_json, xj_render_json. rewrite check_schema_top.
+  rewrite (xj_members_ok_job files named j Hwf). cbn [negb].
+  assert (Hi : xj_jinv (mk_jstate [] false [])) by (split; reflexivity).
+  destruct (xj_top_job files named j (mk_jstate [] false []) Hwf Hi) as [k Hk]. rewrite Hk. rewrite Hok.
+  rewrite rev'_rev, j_emits_calls. cbn [j_calls]. rewrite app_nil_r, rev_involutive. reflexivity.
+Qed.
+
+(* mixture_equivalent (DESIGN §5 C19), over every option table: the command line  <j1> --job-json-file=F <j3>  makes the calls of
+   j1, then Config::jobJsonFile(F), then the calls of j3 and the consistency check; reading F as a partial job
+   (initializeFromJson(.., true)) where F holds the job JSON of j2 makes exactly the calls of j2 (and no consistency check); and the
+   merged command line <j1> <j2> <j3> makes the calls of j1, j2, j3 and the consistency check - the same as what the JSON reading
+   makes for j2, the preliminary encrypt(0, "", "") apart.  j1, j2, j3 range over the jobs of argv_refines_spec.  What
+   Config::jobJsonFile does in between (reading the file, JSON::parse) is outside the front-end model and exercised by the
+   'cli-mix' rendering of the end-to-end runs. *)
+Lemma mixture_equivalent_lemma : forall files named e F j1 j2 j3,
+  ae_target e = TConfig C_MAIN B"jobJsonFile" -> ae_kind e = KParam ->
+  xj_wf_job argv_table files named (j1 ++ [XjBase (IOpt e F)] ++ j3) -> xj_wf_job argv_table files named (j1 ++ j2 ++ j3) ->
+  snd (xj_denote_items j1) = true -> snd (xj_denote_items j2) = true -> snd (xj_denote_items j3) = true ->
+  front_argv files (xj_render_argv named (j1 ++ [XjBase (IOpt e F)] ++ j3)) =
+    mk_fe_res (xj_argv_calls j1 ++ [CCall C_MAIN B"jobJsonFile" [F]] ++ xj_argv_calls j3 ++ [CHECK]) EFin /\
+  front_json true (xj_render_json j2) = mk_fe_res (fst (xj_denote_items j2)) EFin /\
+  front_argv files (xj_render_argv named (j1 ++ j2 ++ j3)) =
+    mk_fe_res (xj_argv_calls j1 ++ xj_argv_calls j2 ++ xj_argv_calls j3 ++ [CHECK]) EFin /\
+  strip_enc0 (xj_argv_calls j2) = fst (xj_denote_items j2).
+Proof.
+  intros files named e F j1 j2 j3 Htg Hkind Hwf1 Hwf2 H1 H2 H3.
+  assert (Hc : opt_denote e F = Some (CCall C_MAIN B"jobJsonFile" [F])).
+  { unfold opt_denote. rewrite Htg, Hkind. reflexivity. }
+  assert (Hwf2' : Forall (xj_wf_item argv_table files named) j2).
+  { destruct Hwf2 as [Hwf2 _]. apply Forall_app in Hwf2. destruct Hwf2 as [_ Hwf2]. apply Forall_app in Hwf2. tauto. }
+  split; [|split; [|split]].
+  - pose proof (argv_refines_spec_lemma files named _ Hwf1) as HA. unfold res_is in HA.
+    rewrite (xj_denote_items_app j1 _ H1) in HA. rewrite (xj_argv_calls_app j1 _ H1) in HA. cbn [fst snd] in HA.
+    unfold xj_denote_items in HA. cbn [app xj_seq xj_denote_item denote_item xj_argv_calls xj_argv_calls_item argv_calls_item] in HA.
+    rewrite Hc in HA. cbn [fst snd] in HA. fold (xj_denote_items j3) in HA.
+    destruct (xj_denote_items j3) as [cs3 ok3] eqn:H3'. cbn [fst snd] in *. subst ok3.
+    cbn [fst snd app] in HA. cbn [app]. rewrite HA. rewrite <- app_assoc. reflexivity.
+  - apply (xj_json_partial_refines files named); auto.
+  - pose proof (argv_refines_spec_lemma files named _ Hwf2) as HA. unfold res_is in HA.
+    rewrite (xj_denote_items_app j1 _ H1) in HA. rewrite (xj_denote_items_app j2 _ H2) in HA. cbn [fst snd] in HA.
+    rewrite (xj_argv_calls_app j1 _ H1) in HA. rewrite (xj_argv_calls_app j2 _ H2) in HA.
+    rewrite H3 in HA. rewrite HA. rewrite <- !app_assoc. reflexivity.
+  - apply (xj_strip_argv_calls files named). exact Hwf2'.
+Qed.
+
+(* ================================================================== the tables *)
+(* tables_equivalent (DESIGN §5 C19) modulo the listed, machine-checked exceptions: every command-line option bound to a Config method
+   has its job-JSON handler (same path, kind, choice list, Config method) UNLESS it is one of known_table_divergences; the options
+   that do not match are EXACTLY that list (the two 40-bit options of tables_equivalent_refuted, nothing else, and both of them do
+   diverge); conversely every JSON handler has its option; hand-written handlers have their named keys; the schema has exactly the
+   nodes of the handler tree *)
+Lemma tables_equivalent_lemma :
+  forallb (fun e => match_json json_table e || divergent e) (auto_aentries argv_table) = true /\
+  map (fun e => (ae_table e, ae_flag e)) (filter (fun e => negb (match_json json_table e)) (auto_aentries argv_table)) =
+    known_table_divergences /\
+  forallb (match_argv argv_table) (auto_jentries json_table) = true /\
+  forallb (manual_argv_ok json_table) (manual_aentries argv_table) = true /\
+  forallb manual_json_ok (manual_jentries json_table) = true /\
+  forallb (schema_has schema_table) json_table = true /\
+  forallb (schema_covered json_table) schema_table = true.
+Proof. vm_compute. repeat split; reflexivity. Qed.
